@@ -64,6 +64,14 @@ Definition generate_ (N : nat) (f : nat -> list Z -> Z) (pan : option nat) :=
 (* Clone for GenericArray = (&self).map(Clone::clone); Default = generate(|_| default) *)
 Definition clone_ (cl : nat -> list Z -> Z) (pan : option nat) (a : list Z) := map_ false cl pan a.
 Definition default_ (N : nat) (d : nat -> list Z -> Z) (pan : option nat) := generate_ N d pan.
+(* dst.clone_from(&src) with the standard default `*self = source.clone()`: the clone is built first; only when it
+   is complete are the old elements of dst dropped and replaced.  When a clone() panics dst is untouched. *)
+Definition clone_from_ (dst_tracked : bool) (cl : nat -> list Z -> Z) (pan : option nat) (dst src : list Z) :=
+  let '(o, e, calls) := clone_ cl pan src in
+  match o with
+  | Ok _ => (o, e ++ (if dst_tracked then map EDrop dst else []), calls)
+  | _ => (o, e, calls)
+  end.
 
 (* fold: consumer (or by-value iterator) + accumulator threaded through f.
    acc values are opaque numbers computed by g; events only concern the elements. *)
